@@ -390,6 +390,28 @@ func smallTrees() []treeGen {
 	leaves := []leafSpec{{"nil", nil}, {"t", true}, {"i1", 1}, {"f1", 1.0}, {"s", "s"}, {"i2", 2}, {"e", ""}}
 	var out []treeGen
 	out = append(out, treeGen{"L()", func() any { return NewList() }}, treeGen{"O()", func() any { return NewObject() }})
+	// floats one ulp apart and within 1e-12 relative distance (exact equality only)
+	for i, pr := range [][2]float64{{100, 100 + 7e-11}, {100 + 7e-11, 100 + 14e-11}, {1, math.Nextafter(1, 2)}, {1e300, math.Nextafter(1e300, 0)}, {5e-324, 1e-323}, {0.1, 0.1 + 1e-17}} {
+		pr := pr
+		out = append(out,
+			treeGen{fmt.Sprintf("L(fa%d)", i), func() any { return NewList(pr[0]) }},
+			treeGen{fmt.Sprintf("L(fb%d)", i), func() any { return NewList(pr[1]) }},
+			treeGen{fmt.Sprintf("O(a=fa%d)", i), func() any { return NewObject("a", pr[0]) }},
+			treeGen{fmt.Sprintf("O(a=fb%d)", i), func() any { return NewObject("a", pr[1]) }})
+	}
+	// one container at two positions of a tree (a DAG) against trees that differ at the later occurrence
+	out = append(out,
+		treeGen{"L(sh,sh)", func() any { sh := NewList(1, 2); return NewList(sh, sh) }},
+		treeGen{"L(L(1,2),L(9,9))", func() any { return NewList(NewList(1, 2), NewList(9, 9)) }},
+		treeGen{"L(L(1,2),L(1,2))", func() any { return NewList(NewList(1, 2), NewList(1, 2)) }},
+		treeGen{"L(L(9,9),L(1,2))", func() any { return NewList(NewList(9, 9), NewList(1, 2)) }},
+		treeGen{"O(p=sh,q=sh)", func() any { sh := NewObject("k", 1); return NewObject("p", sh, "q", sh) }},
+		treeGen{"O(p=O(k=1),q=O(k=2))", func() any { return NewObject("p", NewObject("k", 1), "q", NewObject("k", 2)) }},
+		treeGen{"O(p=O(k=2),q=O(k=1))", func() any { return NewObject("p", NewObject("k", 2), "q", NewObject("k", 1)) }},
+		treeGen{"O(p=O(k=1),q=O(k=1))", func() any { return NewObject("p", NewObject("k", 1), "q", NewObject("k", 1)) }},
+		treeGen{"ListOf(L(1),2)", func() any { return NewListOf(NewList(1), 2) }},
+		treeGen{"L(L(1),L(2))", func() any { return NewList(NewList(1), NewList(2)) }},
+		treeGen{"L(L(2),L(1))", func() any { return NewList(NewList(2), NewList(1)) }})
 	// empty containers as children (a copy must not share them either)
 	out = append(out,
 		treeGen{"L(L())", func() any { return NewList(NewList()) }},
